@@ -254,6 +254,8 @@ def layout(ctx, R, N, loc):
             for g, c in enumerate(f_in.flat):
                 at = alg.atoms_of(alg.unfold_all(lift(c)), deep=True)
                 names = {str(a.args[0]) for a in at if a.kind == "sym"}
+                if N == 1 and lift(c) == ONE:
+                    continue  # a single grain: the normalised fraction is identically 1
                 if f"Yq1[{9 + 9 * N + g}]" not in names or any(int(n[4:-1]) < 9 + 9 * N for n in names):
                     src_ok = False
             ctx.ob("C01.layout", f"N={N}:extract", src_ok, "extract_vars slices must be y[9:9+9n] (row-major orientations) and y[9+9n:10n+9]", loc)
